@@ -82,3 +82,12 @@ Example C09_example :
   snd (fold_left sstep [SDraw; SSplit 2; SDraw; SRestore; SDraw] (Plain (KSeed 7) 0, []))
   = [KFold (KSeed 7) 0; KFold (KSplit (KFold (KSeed 7) 1) 0) 0; KFold (KSplit (KFold (KSeed 7) 1) 1) 0; KFold (KSeed 7) 2]%N.
 Proof. vm_compute. reflexivity. Qed.
+
+(* rng counters through nn.cond / nn.switch: every branch is traced in turn on the shared counters, so the branch at position i
+   draws the counts after those of the branches before it and the draw after the transform comes after all of them; whatever the
+   branches draw, the counts of the branch that ran and of the later draw are pairwise different and all new *)
+Theorem C09_branch_draws_distinct : forall entry ds i, i < length ds ->
+  NoDup (branch_counts entry ds i ++ [count_after entry ds]) /\
+  forall c, In c (branch_counts entry ds i ++ [count_after entry ds]) -> entry < c.
+Proof. exact branch_draws_distinct. Qed.
+Print Assumptions C09_branch_draws_distinct.
